@@ -175,6 +175,69 @@ Lemma reject_outside_stays_inside x y : inside y = false -> alpha_rej x y = 0.
 Proof. intro E. unfold alpha_rej. now rewrite E. Qed.
 End RejectOutside.
 
+(** ---- (7c) periodic and reflective coordinates under the SYMMETRIC (RWM) proposal ----
+    The density of "u + step, then wrap into [0,1)" at u' is the sum over the pre-images u' + k of the step density;
+    for "fold" the pre-images are u' + 2k and -u' + 2k. For an even step density both sums are symmetric in (u, u'),
+    for every symmetric truncation |k| <= K - so wrapping/folding keeps the RWM proposal symmetric and the plain
+    Metropolis ratio exact. *)
+Section WrapFold.
+Variable phi : R -> R.
+Hypothesis phi_even : forall t, phi (- t) = phi t.
+
+Fixpoint sym_sum (K : nat) (f : Z -> R) : R :=
+  match K with O => f 0%Z | S K' => sym_sum K' f + (f (Z.of_nat K) + f (- Z.of_nat K)%Z) end.
+
+Lemma sym_sum_ext K f g : (forall k, f k + f (- k)%Z = g k + g (- k)%Z) -> f 0%Z = g 0%Z -> sym_sum K f = sym_sum K g.
+Proof. intros H H0. induction K as [|K IH]; cbn [sym_sum]; [exact H0|]. rewrite IH. f_equal. apply H. Qed.
+
+Definition q_wrap (K : nat) (u u' : R) : R := sym_sum K (fun k => phi (u' - u + IZR k)).
+Definition q_fold (K : nat) (u u' : R) : R := sym_sum K (fun k => phi (u' - u + 2 * IZR k) + phi (- u' - u + 2 * IZR k)).
+
+Theorem wrap_symmetric K u u' : q_wrap K u u' = q_wrap K u' u.
+Proof.
+  unfold q_wrap. apply sym_sum_ext.
+  - intro k. rewrite opp_IZR.
+    replace (u - u' + IZR k) with (- (u' - u + - IZR k)) by ring.
+    replace (u - u' + - IZR k) with (- (u' - u + IZR k)) by ring.
+    rewrite !phi_even. ring.
+  - replace (u - u' + 0) with (- (u' - u + 0)) by ring. now rewrite phi_even.
+Qed.
+
+Theorem fold_symmetric K u u' : q_fold K u u' = q_fold K u' u.
+Proof.
+  unfold q_fold. apply sym_sum_ext.
+  - intro k. rewrite opp_IZR.
+    replace (u - u' + 2 * IZR k) with (- (u' - u + 2 * - IZR k)) by ring.
+    replace (u - u' + 2 * - IZR k) with (- (u' - u + 2 * IZR k)) by ring.
+    replace (- u - u' + 2 * IZR k) with (- u' - u + 2 * IZR k) by ring.
+    replace (- u - u' + 2 * - IZR k) with (- u' - u + 2 * - IZR k) by ring.
+    rewrite !phi_even. ring.
+  - replace (u - u' + 2 * 0) with (- (u' - u + 2 * 0)) by ring. rewrite phi_even.
+    replace (- u - u' + 2 * 0) with (- u' - u + 2 * 0) by ring. reflexivity.
+Qed.
+End WrapFold.
+
+(** a proposal that is reversible w.r.t. a NON-periodic reference m (tpCN: it contracts towards the mode mean) does not
+    stay m-reversible when wrapped: on the integers with m(x) = 2^-|x| and q(x,y) = m(y) [|x-y| <= 1], wrapped onto the
+    residues mod 3, the pair (0, 2) has m(0) q~(0,2) = 1/2 but m(2) q~(2,0) = 1/32. This is why the tpCN runner rejects
+    instead of wrapping. *)
+Definition m_ex (x : Z) : R := / 2 ^ Z.abs_nat x.
+Definition q_ex (x y : Z) : R := if Z.leb (Z.abs (x - y)) 1 then m_ex y else 0.
+Definition q_ex_wrapped (x y : Z) : R := q_ex x (y - 3) + q_ex x y + q_ex x (y + 3).
+Lemma q_ex_reversible x y : m_ex x * q_ex x y = m_ex y * q_ex y x.
+Proof.
+  unfold q_ex. replace (Z.abs (y - x)) with (Z.abs (x - y)) by (rewrite <- Z.abs_opp; f_equal; ring).
+  destruct (Z.leb (Z.abs (x - y)) 1); ring.
+Qed.
+
+Example wrapped_contracting_proposal_not_reversible :
+  m_ex 0 * q_ex_wrapped 0 2 = / 2 /\ m_ex 2 * q_ex_wrapped 2 0 = / 32 /\ / 2 <> / 32.
+Proof.
+  unfold q_ex_wrapped, q_ex, m_ex. cbn.
+  change (Pos.to_nat 1) with 1%nat. change (Pos.to_nat 2) with 2%nat. change (Pos.to_nat 3) with 3%nat.
+  cbn [pow]. split; [|split]; lra.
+Qed.
+
 (** the Student-t correction: the code's exponent is the log of the MH ratio with reference density t *)
 Theorem accept_is_mh_ratio beta l l' nu d delta delta' :
   exp (beta * (l' - l) + (logt nu d delta - logt nu d delta'))
